@@ -265,8 +265,13 @@ def map(
         xmax = (datax + datadx).max().values
         ymin = (datay - datadx).min().values
         ymax = (datay + datadx).max().values
-        zmin = (dataz - datadx).min().values
-        zmax = (dataz + datadx).max().values
+        if thick:
+            # The depth range is the requested thickness, not the extent of the cells
+            zmin = -0.5 * dz.magnitude
+            zmax = zmin + dz.magnitude
+        else:
+            zmin = (dataz - datadx).min().values
+            zmax = (dataz + datadx).max().values
         dx = (xmax - xmin) * datadx.unit
         dy = (ymax - ymin) * datadx.unit
 
